@@ -368,9 +368,7 @@ Section Ranges.
     Lemma i_params_loop n : forall acc, ispec (params_loop n acc).
     Proof.
       induction n as [|n IH]; intros acc s r s' H Hi; cbn [params_loop] in H; [discriminate|].
-      cbv zeta in H. brk.
-      - eapply IH; [exact H|]. auto with idb.
-      - assumption.
+      cbv zeta in H. igo.
     Qed.
     Hint Resolve i_params_loop : idb.
 
